@@ -716,8 +716,8 @@ fn get_where_filters(params: &EntityParams, prepared_query: &mut SingleQuery, t:
                                 ParamValue::String(v) => {
                                     tab(&mut q, t + 1);
                                     q.push_str(&format!(
-                                        "WHEN '{}' {} {} THEN ",
-                                        v.replace('\'', "''"),
+                                        "WHEN {} {} {} THEN ",
+                                        prepared_query.add_param(String::from(v), true),
                                         operation,
                                         &value
                                     ));
